@@ -168,16 +168,23 @@ def loops_to_comprehensions(tree):
                                                                                          s.value.func.id == 'set' and not s.value.args else None)
                 body = nxt.body
                 cond = None
+                conds = []
+                # leading `if c: continue` guards are negated filters
+                while kind and len(body) > 1 and isinstance(body[0], ast.If) and not body[0].orelse and len(body[0].body) == 1 and isinstance(body[0].body[0], ast.Continue):
+                    conds.append(push_not(body[0].test))
+                    body = body[1:]
                 if kind and len(body) == 1 and isinstance(body[0], ast.If) and not body[0].orelse and len(body[0].body) == 1:
-                    cond = body[0].test
+                    conds.append(body[0].test)
                     body = body[0].body
+                if conds:
+                    cond = conds[0] if len(conds) == 1 else ast.BoolOp(op=ast.And(), values=conds)
                 if kind and len(body) == 1 and isinstance(body[0], ast.Expr) and isinstance(body[0].value, ast.Call) and isinstance(body[0].value.func, ast.Attribute) \
                         and isinstance(body[0].value.func.value, ast.Name) and body[0].value.func.value.id == x \
                         and body[0].value.func.attr == ('append' if kind == 'list' else 'add') and len(body[0].value.args) == 1 and not body[0].value.keywords:
                     elt = body[0].value.args[0]
                     used = {m.id for e in [elt, nxt.iter] + ([cond] if cond is not None else []) for m in ast.walk(e) if isinstance(m, ast.Name)}
                     if x not in used and not any(isinstance(m, (ast.Yield, ast.YieldFrom, ast.Await)) for m in ast.walk(nxt)):
-                        gen = ast.comprehension(target=nxt.target, iter=nxt.iter, ifs=[cond] if cond is not None else [], is_async=0)
+                        gen = ast.comprehension(target=nxt.target, iter=nxt.iter, ifs=list(conds), is_async=0)
                         comp = ast.ListComp(elt=elt, generators=[gen]) if kind == 'list' else ast.SetComp(elt=elt, generators=[gen])
                         out.append(ast.copy_location(ast.Assign(targets=[s.targets[0]], value=ast.copy_location(comp, nxt)), s))
                         n[0] += 1
